@@ -2222,11 +2222,29 @@ insert_list:
     struct migrate_args {thread* th; vcpu_base* v;};
     static int do_thread_migrate(thread* th, vcpu_base* v);
     static void do_defer_migrate(void* m_) {
+        // runs on the next thread's stack; the migrating thread is in no queue
+        // (see below), so nobody else can run or free it before it is published
         auto m = (migrate_args*)m_;
-        do_thread_migrate(m->th, m->v);
+        auto th = m->th;
+        auto vcpu = (vcpu_t*)m->v;
+        {
+            SCOPED_LOCK(th->lock);
+            th->get_vcpu()->nthreads--;
+            th->vcpu = vcpu;
+            vcpu->nthreads++;
+        }
+        vcpu->move_to_standbyq_atomic(th);  // last access: th may run (and end) at once
     }
     static int defer_migrate_current(vcpu_base* v) {
-        auto sw = AtomicRunQ().goto_next();
+        // Take CURRENT out of the run queue in the same critical section that picks
+        // the next thread.  Left in it as READY until the deferred step, it could be
+        // taken by a work stealer, run to its end there and be freed before the
+        // deferred step touched it.
+        Switch sw;
+        {
+            AtomicRunQ arq;
+            sw = arq.remove_current(states::STANDBY);
+        }
         migrate_args defer_arg{sw.from, v};
         switch_context_defer(sw.from, sw.to,
             &do_defer_migrate, &defer_arg);
